@@ -544,6 +544,17 @@ func c01Reader(c *fw.Ctx) fw.Outcome {
 
 func c01Writer(c *fw.Ctx) fw.Outcome {
 	model := srtGenModel(c.R)
+	// a run made of no-break spaces only is representable (written as &nbsp;) and must survive the round trip
+	for k := range model {
+		for l := range model[k].Lines {
+			if c.R.P(1, 6) {
+				runs := model[k].Lines[l]
+				i := c.R.Intn(len(runs) + 1)
+				nb := srtRun{Text: strings.Repeat("\u00a0", c.R.Range(1, 2)), B: c.R.Bool(), I: c.R.Bool()}
+				model[k].Lines[l] = append(runs[:i:i], append([]srtRun{nb}, runs[i:]...)...)
+			}
+		}
+	}
 	if len(model) == 0 {
 		// an empty list is the nothing-to-write error
 		var b bytes.Buffer
